@@ -52,8 +52,8 @@ prop("C01", ["prims.go", "c01.go"],
      note="Bound: " + C01_BOUND + ". Contracts: resolver, base64 and x509 outcomes are uninterpreted predicates; bufio/context/process are models. " + ENGINE)
 prop("C05", ["prims.go", "c01.go"],
      [run("start", "harnessC01", ["rejected"], native="start", quick={"witness": 24, "params": {"full": 0}, "bound": "as C01: every rejection cause the solver finds feasible (each field invalid in turn, timeout, EOF while alive, exit before output) x the configuration space of C01"}),
-      run("kill-after", "harnessC05killAfter", ["start-failed", "start-succeeded", "kill-later", "more-stdout-after-the-line"], files=WORLD,
-          quick={"bound": "scripted plugins announcing five kinds of line (multiplexing unsupported, 4-field, net/rpc, gRPC, garbage), followed or not by two more stdout lines, x allowed list x launch {RunnerFunc, exec.Cmd}; after a failed Start, Kill at once or three seconds later: returns promptly, process dead, socket directory removed"})],
+      run("kill-after", "harnessC05killAfter", ["start-failed", "start-succeeded", "kill-later", "more-stdout-after-the-line", "unix-socket-config", "second-start-before-kill"], files=WORLD,
+          quick={"bound": "scripted plugins announcing five kinds of line (multiplexing unsupported, 4-field, net/rpc, gRPC, garbage), followed or not by two more stdout lines, x allowed list x launch {RunnerFunc, exec.Cmd}; UnixSocketConfig nil or given; after a failed Start, optionally a second Start, then Kill at once or three seconds later: returns promptly, process dead, socket directory removed"})],
      [PROC, BUFIO, CTX, STR, NET, CRYPTO], ["as C01"],
      "launch by exec.Cmd (the real CmdRunner); process liveness is the model's (Kill was called on the runner)",
      text="Same symbolic run of the real Client.Start as C01 with the kill clause as the assertion: on every feasible path on which the runner was started and Start returns an error or panics, the runner's Kill has been called by then. Failure causes are not enumerated by hand - they are the paths the solver finds feasible.",
@@ -79,8 +79,8 @@ prop("C13", ["prims.go", "c13.go"],
      [run("check", "harnessC13", ["match", "mismatch", "empty-checksum", "nil-hash", "open-fails", "checked-twice"], native="check",
           quick={"witness": 16, "params": {"bytes": 4}, "bound": "digest <= 4 bytes and checksum <= 5 bytes of BitVec 8, symbolic lengths; Hash nil or not; file open failing or not; then a second check on the same SecureConfig with the file's digest arbitrary again (unchanged or replaced); the hash model remembers what was fed since the last Reset"},
           thorough={"witness": 32, "params": {"bytes": 8}, "bound": "digest <= 8 bytes and checksum <= 9 bytes of BitVec 8, symbolic lengths; Hash nil or not; file open failing or not; second check as in quick"}),
-      run("start-order", "harnessC13start", ["launched", "refused", "runnerfunc-refused", "path-through-symlink"], files=WORLD,
-          quick={"bound": "whole Client.Start composed with a real plugin, launch through exec.Cmd and through a RunnerFunc, SecureConfig with digest <= 2 and checksum <= 3 symbolic bytes: the process is launched iff the checksum matches the digest of the file the kernel executes; command path plain, or through a symbolic link followed by '..' with a decoy (digest = the checksum) at the lexically cleaned path"})],
+      run("start-order", "harnessC13start", ["launched", "refused", "runnerfunc-refused", "path-through-symlink", "file-not-found"], files=WORLD,
+          quick={"bound": "whole Client.Start composed with a real plugin, launch through exec.Cmd and through a RunnerFunc, SecureConfig with digest <= 2 and checksum <= 3 symbolic bytes: the process is launched iff the checksum matches the digest of the file the kernel executes; command path plain, not openable where Check looks for it, or through a symbolic link followed by '..' with a decoy (digest = the checksum) at the lexically cleaned path"})],
      ["hash.Hash is a harness implementation returning an arbitrary digest (the hash function itself is outside the claim)", "os.Open/io.Copy/File.Close modelled: open may fail"],
      ["os.Open", "io.Copy", "hash.Hash"], "digests longer than the bound; the hash function",
      text="Bounded symbolic model checking of the real SecureConfig.Check (including the real crypto/subtle.ConstantTimeCompare SSA) over every digest/checksum byte string within the length bound: the solver shows Check returns (true,nil) iff checksum == digest, and the documented sentinel errors otherwise. Right level because the property is a universal statement over byte strings whose rare points (prefix, extension, one flipped bit) are satisfying assignments, not samples.",
@@ -112,8 +112,8 @@ EXIT = "os.Exit(n) ends every goroutine of the modelled plugin process and recor
 prop("C16", ["prims.go", "m_print.go", "c16.go"],
      [run("serve", "harnessC16", ["refused", "serving"],
           quick={"bound": "net/rpc plugin; configured cookie key empty or not; configured and environment cookie values arbitrary strings; PLUGIN_MULTIPLEX_GRPC unset / set but empty / \"true\" / other; PLUGIN_CLIENT_CERT set or not"}),
-      run("serve-world", "harnessC16world", ["refused", "serving", "no-cookie-key", "client-cert", "damaged-version-entry"], files=WORLD,
-          quick={"bound": "a plugin process on the world model: net/rpc or gRPC, plain or versioned plugin sets (with a version list in the environment, well-formed or with entries that are not numbers), cookie key configured or empty, cookie variable unset or an arbitrary string, PLUGIN_MULTIPLEX_GRPC unset / empty / true / other, client certificate set or not; checked: exit status, stdout, listener before line, field count, version, protocol, announced address accepting"})],
+      run("serve-world", "harnessC16world", ["refused", "serving", "no-cookie-key", "client-cert", "damaged-version-entry", "percent-in-socket-dir"], files=WORLD,
+          quick={"bound": "a plugin process on the world model: net/rpc or gRPC, plain or versioned plugin sets (with a version list in the environment, well-formed or with entries that are not numbers), cookie key configured or empty, cookie variable unset or an arbitrary string, PLUGIN_MULTIPLEX_GRPC unset / empty / true / other, client certificate set or not, socket directory default or one with a per cent sign in its name; checked: exit status, stdout, listener before line, field count, version, protocol, announced address accepting"})],
      [GHOSTFS, EXIT, STR, "crypto (generateCert, X509KeyPair, CertPool) opaque; os.Pipe/os.Stdout swap modelled; signal.Notify no-op"],
      ["os.Getenv/Exit/Pipe", "net.Listen", "crypto/tls", "crypto/x509", "os/signal", "net/rpc server"],
      "what go-plugin's logger writes to stderr; TLSProvider failures",
@@ -124,7 +124,7 @@ prop("C16", ["prims.go", "m_print.go", "c16.go"],
 prop("C17", ["prims.go", "c17.go"],
      [run("env", "harnessC17", ["automtls", "no-automtls"],
           quick={"bound": "one arbitrary host environment entry K=V (K, V arbitrary strings - the solver may choose K = PLUGIN_CLIENT_CERT etc.); AutoMTLS x GRPCBrokerMultiplex x SkipHostEnv; RunnerFunc capturing cmd.Env and cmd.Stdin"}),
-      run("env-world", "harnessC17world", ["cmd-launch", "runner-launch", "socket-group", "skip-host-env", "cmd-env-preset"], files=WORLD,
+      run("env-world", "harnessC17world", ["cmd-launch", "runner-launch", "socket-group", "skip-host-env", "cmd-env-preset", "zero-min-port"], files=WORLD,
           quick={"bound": "composed with a real plugin: launch {exec.Cmd under the real CmdRunner, RunnerFunc} x protocol x AutoMTLS x multiplexing x UnixSocketConfig.Group set/unset x SkipHostEnv x one arbitrary host variable x (command launch) one arbitrary variable pre-set by the caller in cmd.Env; checked: cookie, port range, version list, client certificate, multiplexing flag, socket group, socket directory, stdin"}),
       run("shared-config", "harnessSharedConfig", ["first-launch", "second-launch"], files=WORLD,
           quick={"bound": "one *ClientConfig used for two launches (RunnerFunc; net/rpc or gRPC; AutoMTLS on or off): the first plugin serves only version 1 (offered through VersionedPlugins), the second only version 2 (offered through the legacy ProtocolVersion+Plugins pair); each launch: Start, Client, Dispense, call, Kill; checked per launch: negotiated version and plugin set, client-certificate variable, size of the host's trust pool"})],
@@ -138,8 +138,8 @@ prop("C17", ["prims.go", "c17.go"],
 prop("C19", ["prims.go", "c17.go"],
      [run("sequences", "harnessC19", ["sequence-done", "runnerfunc-fails", "runner-start-fails"],
           quick={"bound": "call sequences of length 3 over {Start, Protocol, ReattachConfig, Kill-then-Start}; the first launch: plugin prints garbage, prints a valid line, RunnerFunc returns an error, or the runner's Start returns an error; RunnerFunc invocations counted"}),
-      run("concurrent", "harnessC19concurrent", ["two-starts", "two-clients", "done"], dpor=True, files=WORLD,
-          quick={"max_reversals": 1, "race": True, "bound": "host x plugin composed (net/rpc and gRPC): two goroutines on one Client, each performing one of {Start, Client, Protocol+Exited+ID+ReattachConfig, Kill}; all schedules with <= 1 reversal, happens-before race detection; then Kill and another Start"})],
+      run("concurrent", "harnessC19concurrent", ["two-starts", "two-clients", "automtls", "done"], dpor=True, files=WORLD,
+          quick={"max_reversals": 1, "race": True, "bound": "host x plugin composed (net/rpc and gRPC, AutoMTLS on or off): two goroutines on one Client, each performing one of {Start, Client, Protocol+Exited+ID+ReattachConfig, Kill}; all schedules with <= 1 reversal, happens-before race detection; then Kill and another Start"})],
      [PROC, BUFIO, CTX, STR], ["as C01"],
      "more than two goroutines or more than one operation each in the concurrent run; sequences longer than the bound",
      text="Bounded symbolic model checking of the real Start/Client/Protocol/ReattachConfig/Kill over every call sequence within the length bound, with the outcome of the first start symbolic: launches (runner creations and starts) <= 1, no launch after Kill.",
@@ -160,8 +160,8 @@ prop("C15", ["prims.go", "c15.go"],
      text="Bounded symbolic model checking of the real reattach / ReattachConfig / Kill with cmdrunner.ReattachFunc, CmdAttachedRunner and pidWait, alone and composed with the plugin's real Serve (as a process and in test mode): nothing listening => ErrProcessNotFound; a client built from a running plugin's reattach configuration (also at second hand) reaches that same instance with the same protocol and can dispense; Kill on it terminates that plugin - except in test mode, where the server keeps running and stops only when its context is cancelled.",
      note="Bound: the listed histories. Process table, dial and ticker are models. " + ENGINE)
 prop("C14", WORLD,
-     [run("matrix", "harnessC14matrix", ["works", "protocol-refused", "tls-mismatch", "automtls", "mux"],
-          quick={"bound": "host x plugin composed: plugin protocol {net/rpc, gRPC} x AllowedProtocols {default, both, gRPC only} x transport security {none, AutoMTLS, static TLS both sides, host only, plugin only, host AutoMTLS with a plugin that ignores PLUGIN_CLIENT_CERT} x launch {RunnerFunc, exec.Cmd} x multiplexing {off, on (gRPC)}; healthy plugin; Start, Client, Dispense (known and unknown name), call, Ping, Kill"}),
+     [run("matrix", "harnessC14matrix", ["works", "protocol-refused", "tls-mismatch", "automtls", "mux", "mux-requested-netrpc-plugin"],
+          quick={"bound": "host x plugin composed: plugin protocol {net/rpc, gRPC} x AllowedProtocols {default, both, gRPC only} x transport security {none, AutoMTLS, static TLS both sides, host only, plugin only, host AutoMTLS with a plugin that ignores PLUGIN_CLIENT_CERT} x launch {RunnerFunc, exec.Cmd} x multiplexing {off, requested by the host (gRPC plugin, or a net/rpc plugin that ignores it)}; healthy plugin; Start, Client, Dispense (known and unknown name), call, Ping, Kill"}),
       run("mux-unsupported", "harnessC14oldPlugin", ["mux-unsupported"], quick={"bound": "a gRPC plugin announcing six fields, host requesting multiplexing; both launch methods"}),
       run("legacy-lines", "harnessC14legacyLines", ["legacy-accepted", "legacy-refused"], quick={"bound": "scripted plugins announcing 4-field, 5-field net/rpc and 5-field gRPC lines x three allowed lists x both launch methods"}),
       run("reattach-allowed", "harnessC15", ["reattached", "refused-protocol"], files=["prims.go", "c15.go"],
@@ -187,8 +187,8 @@ TLSC = "crypto/tls contract (trusted, not checked): a server presents Certificat
 prop("C12", ["prims.go", "m_print.go", "c12.go"],
      [run("serve-wiring", "harnessC12serve", ["automtls", "plain", "damaged-cert"],
           quick={"bound": "plugin side, net/rpc: PLUGIN_CLIENT_CERT unset, a parsable certificate, or set but not a parsable certificate; the tls.Config reaching tls.NewListener compared field by field with the reference (a damaged certificate must fail closed: required client auth against an empty pool)"}),
-      run("damaged-cert", "harnessC12damagedCert", ["damaged-cert-done", "attacked"], files=WORLD,
-          quick={"bound": "host x plugin composed under AutoMTLS, net/rpc and gRPC, both launch methods, with a launcher that damages PLUGIN_CLIENT_CERT on its way to the plugin; every listener the plugin opened is attacked with the three intruder credential classes"}),
+      run("damaged-cert", "harnessC12damagedCert", ["damaged-cert-done", "attacked", "plugin-ignores-automtls"], files=WORLD,
+          quick={"bound": "host x plugin composed under AutoMTLS, net/rpc and gRPC, both launch methods, with a launcher that damages PLUGIN_CLIENT_CERT on its way to the plugin (every listener the plugin opened is attacked with the three intruder credential classes), or drops it (the plugin serves in clear text: the host must refuse to talk to it)"}),
       run("intruders", "harnessC12", ["legit-works", "brokered-listeners", "intruders-refused"], files=WORLD,
           quick={"bound": "host x plugin composed under AutoMTLS, net/rpc and gRPC, both launch methods; listeners attacked: the plugin's main listener, a plugin-side and a host-side brokered gRPC listener; intruder credential classes: plaintext, TLS without certificate, TLS with a fresh self-signed certificate"}),
       run("impostor", "harnessC12impostor", ["impostor-refused"], files=WORLD,
@@ -223,6 +223,8 @@ prop("C04", ["prims.go", "c04.go"],
           quick={"bound": "host x plugin composed, net/rpc and gRPC, both launch methods; plugin shutdown behaviour in {exits at once, exits after a symbolic clean-up time d <= 10 s, acknowledges but never exits, frozen (SIGSTOP), already crashed}; call pattern: one Kill, a repeated Kill, and a second Kill from another goroutine at a symbolic instant in [first Kill, +6 s]; also the history Start, plugin freezes or crashes, Client() (fails for net/rpc), Kill; each history optionally preceded by a Kill before anything was started"}),
       run("cleanup-clients", "harnessC04cleanup", ["cleaned-up"], files=WORLD,
           quick={"bound": "CleanupClients over two managed clients (protocols free): the second healthy, ignoring the request, or never started"}),
+      run("kill-after-failed-start", "harnessC05killAfter", ["start-failed", "kill-later", "more-stdout-after-the-line"], files=WORLD,
+          quick={"bound": "C05's kill-after run read for C04: scripted plugins whose handshake is refused (five kinds of line, followed or not by more stdout output), then Kill at once or three seconds later: Kill returns (a hang is reported), the process is dead"}),
       run("never-started", "harnessC04neverStarted", ["launch-failed", "concurrent-kill", "killed"], files=WORLD,
           quick={"bound": "the launch itself fails: fork/exec fails under the real CmdRunner (cmd.Process stays nil), the custom runner's Start fails, or RunnerFunc returns an error; reached through Start or Client; then Kill from two goroutines at once, two more Kills, CleanupClients"})],
      [PROC, BUFIO, CTX, GRPCSEAM, "a unary gRPC call returns when answered, when its context is done, or with Unavailable when the connection is dead - and blocks otherwise", "yamux keep-alive: a net/rpc call to a peer that stopped answering fails after at most 40 s (default yamux configuration)"] + WORLD_ASSUME,
@@ -233,7 +235,7 @@ prop("C04", ["prims.go", "c04.go"],
 
 # ------------------------------------------------------------------------------------------------ C09
 prop("C09", ["prims.go", "c09a.go"],
-     [run("mux", "harnessC09a", ["accept-matched", "accept-timed-out", "probe-done", "stream-dropped-before-id", "retry-of-timed-out-accept"], dpor=True,
+     [run("mux", "harnessC09a", ["accept-matched", "accept-timed-out", "probe-done", "stream-dropped-before-id", "retry-of-timed-out-accept", "dial-inside-window"], dpor=True,
           quick={"max_reversals": 1, "bound": "MuxBroker: optionally an inbound stream dropped by its peer before the ID was written, <= 2 inbound dials with IDs x1, x2 NOT assumed distinct at symbolic instants t1 <= t2, <= 1 local Accept(a) at tA, then a matched pair after every timer expired, on a fresh ID or on the ID whose Accept timed out; symbolic clock (ties explored), all schedules with <= 1 reversal; every inbound stream is accepted or closed by the broker"},
           thorough={"max_reversals": 2, "max_wall_s": 1500, "bound": "as quick with <= 2 reversals"}),
       run("grpc", "harnessC09grpc", ["history-done", "lonely-accept", "fresh-pair", "retry-of-timed-out-id", "closed"], files=["prims.go", "c07.go"],
@@ -252,6 +254,8 @@ prop("C06", ["prims.go", "c06.go"],
      [run("routing", "harnessC06", ["dispensed", "routed"], dpor=True,
           quick={"max_reversals": 2, "bound": "two Dispense calls + two symbolic distinct IDs accepted on the host and dialled from the plugin within a symbolic gap < 5 s in either order; all schedules with <= 2 reversals"},
           thorough={"max_reversals": 3, "max_wall_s": 1700, "bound": "as quick with <= 3 reversals (260 747 schedules, 14.7 M solver queries, 13 min on 16 cores when measured)"}),
+      run("mux-history", "harnessC09a", ["accept-matched", "dial-inside-window", "probe-done"], files=["prims.go", "c09a.go"],
+          quick={"bound": "C09's MuxBroker history run read for C06 (canonical schedule): with another dial pending on a different ID, an Accept(a) and a dial for a that arrives within four seconds of it are matched"}),
       run("after-timeout", "harnessC06afterTimeout", ["lonely-on-host", "lonely-on-plugin", "timed-out", "abandoned-dial", "routed"], dpor=True,
           quick={"max_reversals": 1, "bound": "history prefix: one Dispense, then an Accept(id0) nobody dials on the host or the plugin broker (times out), optionally a stream opened by either end and dropped before its ID was written; afterwards a second Dispense and one symbolic ID accepted/dialled in either direction, either order, symbolic gap < 5 s; symbolic clock, all schedules with <= 1 reversal"})],
      [YAMUX, NETRPC], ["yamux", "net/rpc", "encoding/binary"],
@@ -308,7 +312,7 @@ prop("C20", ["prims.go", "c20.go"],
       run("close-close", "harnessC20close", ["both-closed"], dpor=True, quick={"max_reversals": 2, "race": True, "bound": "two goroutines calling GRPCBroker.Close (sync.Once control)"}),
       run("nextid", "harnessC20nextid", ["ids-distinct"], dpor=True, quick={"max_reversals": 2, "race": True, "bound": "two goroutines each taking two IDs from both broker kinds, counter value symbolic (wrap-around included)"}),
       run("client-methods", "harnessC19concurrent", ["two-starts", "two-clients", "done"], dpor=True, files=WORLD,
-          quick={"max_reversals": 1, "race": True, "bound": "host x plugin composed (net/rpc and gRPC): two goroutines on one Client, each performing one of {Start, Client, Protocol+Exited+ID+ReattachConfig, Kill}; all schedules with <= 1 reversal; happens-before race detection over everything go-plugin touches on both sides"}),
+          quick={"max_reversals": 1, "race": True, "bound": "host x plugin composed (net/rpc and gRPC, AutoMTLS on or off): two goroutines on one Client, each performing one of {Start, Client, Protocol+Exited+ID+ReattachConfig, Kill}; all schedules with <= 1 reversal; happens-before race detection over everything go-plugin touches on both sides"}),
       run("serve-shutdown", "harnessC20serveShutdown", ["host-side", "plugin-side", "after-shutdown", "shut-down"], dpor=True, files=WORLD,
           quick={"max_reversals": 1, "race": True, "bound": "host x plugin composed over gRPC, multiplexing on and off: a brokered server being started (AcceptAndServe on the host broker, or on the plugin broker inside the plugin) while the client is killed, and on the host another AcceptAndServe after the shutdown returned; all schedules with <= 1 reversal, happens-before race detection"},
           thorough={"max_reversals": 2, "race": True, "max_wall_s": 1500, "bound": "as quick with <= 2 reversals (50 535 schedules, 91 s when measured)"}),
